@@ -144,6 +144,14 @@ def run(ck: Checker, prog: Program, tier: str):
         local = free - modnames
         bad = (pr - {p_fname}) | {n for n in local if n in w.params}
         consts_only = not pr
+        _p2, _st2 = value_sources(w, e, c)
+        cut = [x for node in [e] + list(_st2) for x in ast.walk(node) if isinstance(x, ast.Subscript) and isinstance(x.value, ast.Call)
+               and call_name(x.value) in ("split", "partition") and x.value.args and isinstance(x.value.args[0], ast.Constant) and x.value.args[0].value == "."
+               and isinstance(x.slice, ast.Constant) and x.slice.value == 0]
+        if cut:
+            ck.violation("C19.R2b", WORKER, norm_key(e) + " [first dot]",
+                         f"{kind} output name keeps only the part of the file name before its first dot (`{unparse(cut[0])}`): different input files "
+                         f"of one batch (e.g. UT.STN11.A.mseed, UT.STN11.B.mseed) share one output and overwrite each other", loc=w.loc(c))
         if bad or consts_only:
             ck.violation("C19.R2b", WORKER, norm_key(e),
                          f"{kind} output name does not depend on the task's own file name only "
@@ -164,9 +172,35 @@ def run(ck: Checker, prog: Program, tier: str):
     else:
         ck.ok("C19.R3", "cli.cli", f"starmap({w.name}, ...)")
     z = sm.args[1] if len(sm.args) > 1 else None
-    if not (isinstance(z, ast.Call) and call_name(z) == "zip" and len(z.args) == 4):
-        raise AnalysisError("cli.cli: starmap iterable is not zip(<4 iterables>)")
     rd = reaching(cli)
+    # the task iterable: zip(files, repeat(a), repeat(b), repeat(c)) or [(file, a, b, c) for file in files]
+    if isinstance(z, ast.Name):
+        defs = rd.def_stmts(z.id, sm)
+        if len(defs) == 1 and isinstance(defs[0], ast.Assign):
+            z = defs[0].value
+    comps: List[ast.AST] = []
+    problems: List[str] = []
+    seq = None
+    if isinstance(z, ast.Call) and call_name(z) == "zip" and len(z.args) == len(w.params):
+        seq = z.args[0]
+        comps.append(seq)
+        for i, a in enumerate(z.args[1:], start=1):
+            if isinstance(a, ast.Call) and call_name(a) == "repeat" and a.args:
+                if len(a.args) > 1 or a.keywords:
+                    problems.append(f"zip argument {i} `{norm_key(a, 60)}` is repeated a limited number of times: zip stops there and the remaining files are never processed")
+                comps.append(a.args[0])
+            else:
+                problems.append(f"zip argument {i} should be itertools.repeat(...)")
+                comps.append(a)
+    elif isinstance(z, (ast.ListComp, ast.GeneratorExp)) and len(z.generators) == 1 and not z.generators[0].ifs \
+            and isinstance(z.elt, ast.Tuple) and len(z.elt.elts) == len(w.params) and isinstance(z.generators[0].target, ast.Name):
+        g = z.generators[0]
+        seq = g.iter
+        if not (isinstance(z.elt.elts[0], ast.Name) and z.elt.elts[0].id == g.target.id):
+            problems.append(f"the first element of a task is `{unparse(z.elt.elts[0])}`, not the file of that task")
+        comps = [seq] + list(z.elt.elts[1:])
+    else:
+        raise AnalysisError("cli.cli: the task iterable of starmap is neither zip(files, repeat(..)...) nor a comprehension of task tuples")
 
     def loaded_from_option(expr) -> str:
         """name of the CLI option a value was loaded from (through read_settings_object_from_file / kwargs.pop)."""
@@ -180,25 +214,18 @@ def run(ck: Checker, prog: Program, tier: str):
                 if isinstance(sub, ast.Subscript) and isinstance(sub.slice, ast.Constant) and isinstance(sub.slice.value, str):
                     opts.add(sub.slice.value)
         return ",".join(sorted(opts))
-
-    expect = [("file_names", False), ("preprocessing_settings_file", True), ("processing_settings_file", True), (None, True)]
-    for i, (a, (opt, rep)) in enumerate(zip(z.args, expect)):
-        inner = a
-        is_rep = isinstance(a, ast.Call) and call_name(a) == "repeat"
-        if is_rep:
-            inner = a.args[0]
-        if rep != is_rep:
-            ck.violation("C19.R3", "cli.cli", norm_key(a), f"zip argument {i} should {'be' if rep else 'not be'} itertools.repeat(...)",
-                         loc=cli.loc(a))
-            continue
+    for pr_ in problems:
+        ck.violation("C19.R3", "cli.cli", pr_[:80], pr_, loc=cli.loc(sm))
+    expect = ["file_names", "preprocessing_settings_file", "processing_settings_file", None]
+    for i, (a, opt) in enumerate(zip(comps, expect)):
         if opt is None:
-            good = isinstance(inner, ast.Name) and inner.id == (cli.kwarg or "kwargs")
-            src = unparse(inner)
+            good = isinstance(a, ast.Name) and a.id == (cli.kwarg or "kwargs")
+            src = unparse(a)
         else:
-            src = loaded_from_option(inner)
+            src = loaded_from_option(a)
             good = src == opt
         if good:
-            ck.ok("C19.R3", "cli.cli", f"zip arg {i}: {norm_key(a)}", detail=f"from option {src} -> worker param {w.params[i]}")
+            ck.ok("C19.R3", "cli.cli", f"task component {i}: {norm_key(a)}", detail=f"from option {src} -> worker param {w.params[i]}")
         else:
             ck.violation("C19.R3", "cli.cli", norm_key(a),
                          f"worker parameter `{w.params[i]}` receives a value loaded from `{src}` (expected {opt or 'the option dict'})",
